@@ -198,10 +198,14 @@ class Protocol:
         code: str = 'send-{}'.format(Message.CODE.short(raw[18]))
         self.peer.stats[code] += 1
         if self._api.get(code, False):
-            # Parse the raw bytes to get an Update for API
-            update = Update(raw[19:])
-            update.parse(self.negotiated)
-            self._to_api('send', update, raw)
+            if raw[18] == Message.CODE.UPDATE:
+                # Parse the raw bytes to get an Update for API
+                update = Update(raw[19:])
+                update.parse(self.negotiated)
+                self._to_api('send', update, raw)
+            else:
+                # the update generator also yields ROUTE-REFRESH markers (enhanced route refresh)
+                self._to_api('send', Message.unpack(raw[18], raw[19:], self.negotiated), raw)
 
         await self.connection.writer_async(raw)
 
